@@ -156,19 +156,10 @@ Record wf_hdr (h : gheader) : Prop := {
   wh_name_colon : nob COLON (gh_name h) = true;
   wh_name_lf : nob LF (gh_name h) = true;
   wh_name_u : utf8 (gh_name h);
-  wh_sep : forallb is_ows (gh_sep h) = true;
+  wh_sep_lf : nob LF (gh_sep h) = true;
   wh_value_lf : nob LF (gh_value h) = true;
-  wh_value_u : utf8 (gh_value h);
-  wh_value_trim : ws_prefix_len (gh_value h) = 0%nat }.
-
-Lemma wf_header_hdr h : wf_header h = true -> wf_hdr h.
-Proof.
-  unfold wf_header. intro H.
-  apply andb_true_iff in H as [H V3]. apply andb_true_iff in H as [H V2]. apply andb_true_iff in H as [H V1].
-  apply andb_true_iff in H as [H S]. apply andb_true_iff in H as [H N3]. apply andb_true_iff in H as [N1 N2].
-  constructor; try assumption; try (now apply utf8_valid_true).
-  apply beq_eq in V3. now apply trim_start_fixed_iff.
-Qed.
+  wh_sv_u : utf8 (gh_sep h ++ gh_value h);
+  wh_trim : trim_start (gh_sep h ++ gh_value h) = gh_value h }.
 
 Lemma is_ows_ws1 b : is_ows b = true -> ws1 b = true.
 Proof.
@@ -185,6 +176,17 @@ Proof.
     + apply utf8_ascii_cons; [|exact I3]. now apply ws1_ascii, is_ows_ws1.
 Qed.
 
+Lemma wf_header_hdr h : wf_header h = true -> wf_hdr h.
+Proof.
+  unfold wf_header. intro H.
+  apply andb_true_iff in H as [H V3]. apply andb_true_iff in H as [H V2]. apply andb_true_iff in H as [H V1].
+  apply andb_true_iff in H as [H S]. apply andb_true_iff in H as [H N3]. apply andb_true_iff in H as [N1 N2].
+  destruct (ows_props _ S) as (S1 & S2 & S3). apply beq_eq in V3.
+  constructor; try assumption; try (now apply utf8_valid_true).
+  - apply utf8_app; [assumption | now apply utf8_valid_true].
+  - apply trim_start_sep; [assumption | now apply trim_start_fixed_iff].
+Qed.
+
 Definition header_text (h : gheader) : bytes := gh_name h ++ COLON :: gh_sep h ++ gh_value h.
 
 Lemma render_header_line_text h : render_header_line h = header_text h ++ CRLF.
@@ -192,16 +194,16 @@ Proof. unfold render_header_line, header_text. rewrite <- !app_assoc. cbn [app].
 
 Lemma header_text_props h : wf_hdr h -> nob LF (header_text h) = true /\ utf8 (header_text h).
 Proof.
-  intros [N1 N2 N3 S V1 V2 V3]. destruct (ows_props _ S) as (S1 & S2 & S3). unfold header_text. split.
-  - rewrite nob_app, nob_cons, nob_app, N2, S2, V1. reflexivity.
-  - apply utf8_join_ascii; [reflexivity | assumption |]. now apply utf8_app.
+  intros [N1 N2 N3 S V1 U T]. unfold header_text. split.
+  - rewrite nob_app, nob_cons, nob_app, N2, S, V1. reflexivity.
+  - apply utf8_join_ascii; [reflexivity | assumption | assumption].
 Qed.
 
 Lemma parse_header_line_render h : wf_hdr h -> parse_header_line (header_text h ++ CRLF) = Some (denote_header h).
 Proof.
-  intros [N1 N2 N3 S V1 V2 V3]. destruct (ows_props _ S) as (S1 & S2 & S3).
+  intros [N1 N2 N3 S V1 U T].
   unfold parse_header_line. rewrite strip_crlf_app. unfold header_text. rewrite split_once_app by assumption.
-  now rewrite trim_start_sep.
+  now rewrite T.
 Qed.
 
 Lemma header_line_not_blank h : beq (header_text h ++ CRLF) CRLF = false.
@@ -248,12 +250,11 @@ Proof.
 Qed.
 
 (* ---- the whole request ---- *)
-Lemma parse_faithful ipp p g rest :
-  wf_greq g = true -> parse_request_flat ipp p (render g ++ rest) = Ok (denote ipp g p, rest).
+Lemma parse_faithful_gen ipp p g rest :
+  wf_start g -> Forall wf_hdr (g_headers g) -> wf_body g = true ->
+  parse_request_flat ipp p (render g ++ rest) = Ok (denote ipp g p, rest).
 Proof.
-  intro W. apply wf_greq_start in W as (Ws & Wh & Wb).
-  assert (Wh' : Forall wf_hdr (g_headers g)).
-  { apply Forall_forall. intros h Hin. apply wf_header_hdr. exact (proj1 (forallb_forall _ _) Wh h Hin). }
+  intros Ws Wh' Wb.
   pose proof (parse_start_line_render g Ws) as PS.
   destruct (target_props g Ws) as (Tsp & Tlf & Tu & Tq).
   assert (Slf : nob LF (render_start g) = true).
@@ -271,6 +272,13 @@ Proof.
   rewrite header_loop_flat_render; [|assumption|].
   2:{ rewrite !app_length. pose proof (render_headers_length (g_headers g)). lia. }
   cbn [rev app]. rewrite body_of_flat_render by assumption. reflexivity.
+Qed.
+
+Lemma parse_faithful ipp p g rest :
+  wf_greq g = true -> parse_request_flat ipp p (render g ++ rest) = Ok (denote ipp g p, rest).
+Proof.
+  intro W. apply wf_greq_start in W as (Ws & Wh & Wb). apply parse_faithful_gen; try assumption.
+  apply Forall_forall. intros h Hin. apply wf_header_hdr. exact (proj1 (forallb_forall _ _) Wh h Hin).
 Qed.
 
 (* ------------------------------------------------------------------------------------------------ *)
@@ -901,4 +909,155 @@ Lemma wf_body_canonical g b :
   wf_body g = true.
 Proof.
   intros Hb Hl Hg. unfold wf_body. rewrite Hg, Hb, parse_usize_dec_render by assumption. apply N.eqb_refl.
+Qed.
+
+(* ------------------------------------------------------------------------------------------------ *)
+(* 10. the parser accepts exactly the renderings of accepted requests                                *)
+(* ------------------------------------------------------------------------------------------------ *)
+Lemma acc_header_hdr h : acc_header h -> wf_hdr h.
+Proof. intros [A1 A2 A3 A4 A5 A6 A7]. constructor; try assumption; now apply utf8_valid_true. Qed.
+
+Lemma hdr_acc_header h : wf_hdr h -> acc_header h.
+Proof. intros [A1 A2 A3 A4 A5 A6 A7]. constructor; try assumption; now apply utf8_true_valid. Qed.
+
+Lemma acc_start_wf g : acc_start g -> wf_start g.
+Proof.
+  intros [A1 A2 A3 A4 A5 A6 A7 A8 A9 A10]. constructor; try assumption; try (now apply utf8_valid_true).
+  - now apply wf_method_ok.
+  - destruct (g_query g); [|exact I]. destruct A6 as (Q1 & Q2 & Q3). repeat split; try assumption. now apply utf8_valid_true.
+Qed.
+
+Lemma wf_greq_accepted g : wf_greq g = true -> accepted g.
+Proof.
+  intro W. pose proof W as W0. apply wf_greq_start in W as (Ws & Wh & Wb). split; [|split; [|exact Wb]].
+  - unfold wf_greq in W0.
+    apply andb_true_iff in W0 as [H _]. apply andb_true_iff in H as [H _].
+    apply andb_true_iff in H as [H V4]. apply andb_true_iff in H as [H V3]. apply andb_true_iff in H as [H V2].
+    apply andb_true_iff in H as [H V1]. apply andb_true_iff in H as [H Q].
+    apply andb_true_iff in H as [H P4]. apply andb_true_iff in H as [H P3]. apply andb_true_iff in H as [H P2].
+    apply andb_true_iff in H as [M P1].
+    constructor; try assumption.
+    + destruct (g_query g) as [q|]; [|exact I]. apply andb_true_iff in Q as [Q Q3]. apply andb_true_iff in Q as [Q1 Q2].
+      now repeat split.
+    + exact (ws_ver_ne _ Ws).
+  - apply Forall_forall. intros h Hin. apply hdr_acc_header, wf_header_hdr.
+    exact (proj1 (forallb_forall _ _) Wh h Hin).
+Qed.
+
+Lemma parse_accepted ipp p g rest :
+  accepted g -> parse_request_flat ipp p (render g ++ rest) = Ok (denote ipp g p, rest).
+Proof.
+  intros (As & Ah & Ab). apply parse_faithful_gen; [now apply acc_start_wf | | exact Ab].
+  apply Forall_forall. intros h Hin. apply acc_header_hdr. exact (proj1 (Forall_forall _ _) Ah h Hin).
+Qed.
+
+(* ---- converse: start line ---- *)
+Lemma start_line_conv first line m uri query version :
+  lf_last line -> parse_start_line (first :: line) = Some (m, uri, query, version) ->
+  exists qo, first :: line = (method_str m ++ SP :: (uri ++ match qo with Some q => QMARK :: q | None => [] end)
+                              ++ SP :: version) ++ CRLF /\
+             query = match qo with Some q => q | None => [] end.
+Proof.
+  intros LL H. apply parse_start_line_inv in H as (mname & target & tail & EL & Htail & Em & U & Tsp & Vsp & Vne & Et).
+  destruct mname as [|f m']; [vm_compute in Em; discriminate|].
+  apply method_parse_ok in Em as [_ Em]. rewrite Em.
+  assert (Ht : tail = []).
+  { destruct Htail as [->|(t & ->)]; [reflexivity|]. exfalso.
+    cbn [app] in EL. injection EL as _ EL.
+    assert (X : nob LF (m' ++ SP :: target ++ SP :: version ++ CRLF) = true).
+    { apply (LL _ SP t). rewrite EL. repeat (rewrite <- app_assoc; cbn [app]). reflexivity. }
+    unfold CRLF in X. repeat first [rewrite nob_app in X | rewrite nob_cons in X].
+    rewrite N.eqb_refl in X. cbn [negb] in X. rewrite !andb_false_r in X. discriminate. }
+  subst tail. rewrite app_nil_r in EL.
+  destruct (split_once QMARK target) as [[u q]|] eqn:Es; injection Et as <- <-.
+  - apply split_once_some in Es as [-> _]. exists (Some q). split; [|reflexivity].
+    rewrite EL. repeat (rewrite <- app_assoc; cbn [app]). reflexivity.
+  - exists None. split; [|reflexivity]. rewrite EL, app_nil_r. repeat (rewrite <- app_assoc; cbn [app]). reflexivity.
+Qed.
+
+(* ---- converse: header lines ---- *)
+Lemma parse_header_line_conv line h :
+  lf_last line -> utf8 line -> parse_header_line line = Some h ->
+  exists gh, wf_hdr gh /\ line = header_text gh ++ CRLF /\ h = denote_header gh.
+Proof.
+  intros LL U. unfold parse_header_line.
+  destruct (strip_crlf line) as [l|] eqn:Es; [|discriminate]. apply strip_crlf_some in Es. subst line.
+  destruct (split_once COLON l) as [[n v]|] eqn:Ec; [|discriminate]. intro H. injection H as <-.
+  apply split_once_some in Ec as [-> Hn].
+  assert (Llf : nob LF (n ++ COLON :: v) = true) by (apply (LL _ CR [LF]); reflexivity).
+  rewrite nob_app, nob_cons in Llf. apply andb_true_iff in Llf as [Nlf Vlf]. apply andb_true_iff in Vlf as [_ Vlf].
+  apply utf8_split_ascii in U as [U _]; [|reflexivity].
+  apply utf8_split_ascii in U as [Nu Vu]; [|reflexivity].
+  destruct (trim_start_suffix v) as (pad & Ev).
+  exists {| gh_name := n; gh_sep := pad; gh_value := trim_start v |}. split; [|split].
+  - rewrite Ev, nob_app in Vlf. apply andb_true_iff in Vlf as [Plf Tlf].
+    constructor; cbn [gh_name gh_sep gh_value]; try assumption; now rewrite <- Ev.
+  - unfold header_text. cbn [gh_name gh_sep gh_value]. now rewrite <- Ev.
+  - reflexivity.
+Qed.
+
+Lemma header_loop_flat_conv fuel : forall l acc hs rest,
+  header_loop_flat fuel l acc = Ok (hs, rest) ->
+  exists ghs, Forall wf_hdr ghs /\ l = render_headers ghs ++ CRLF ++ rest /\ hs = rev acc ++ denote_headers ghs.
+Proof.
+  induction fuel as [|f IH]; intros l acc hs rest H; cbn [header_loop_flat] in H; [discriminate|].
+  destruct (read_until_flat LF l) as [line rest0] eqn:Er. apply read_until_flat_lf_last in Er as [LL El].
+  destruct (utf8_valid line) eqn:U; [|discriminate]. cbn [negb] in H.
+  destruct (beq line CRLF) eqn:Eb.
+  - injection H as <- <-. apply beq_eq in Eb. subst line. exists []. split; [constructor|]. split.
+    + exact El.
+    + cbn [denote_headers map]. now rewrite app_nil_r.
+  - destruct (parse_header_line line) as [h|] eqn:Ep; [|discriminate].
+    apply parse_header_line_conv in Ep as (gh & Wg & -> & ->); [|exact LL | now apply utf8_valid_true].
+    apply IH in H as (ghs & Wgs & -> & ->). exists (gh :: ghs). split; [now constructor|]. split.
+    + rewrite El. unfold render_headers. cbn [map concat]. rewrite render_header_line_text, <- !app_assoc. reflexivity.
+    + cbn [rev denote_headers map]. now rewrite <- app_assoc.
+Qed.
+
+Lemma body_of_flat_conv hs l c rest : body_of_flat E_Stream hs l = Ok (c, rest) ->
+  l = match c with Some b => b | None => [] end ++ rest.
+Proof.
+  unfold body_of_flat. destruct (hget (HKnown H_ContentLength) hs) as [cl|].
+  - destruct (parse_usize cl) as [n|]; [|discriminate].
+    unfold read_exact_flat_N, read_exact_flat. destruct (N.of_nat (length l) <? n); [discriminate|].
+    destruct (N.to_nat n <=? length l)%nat; [|discriminate]. intro H. injection H as <- <-.
+    symmetry. apply firstn_skipn.
+  - intro H. now injection H as <- <-.
+Qed.
+
+Lemma parse_accepts_conv ipp p b r rest :
+  parse_request_flat ipp p b = Ok (r, rest) -> exists g, accepted g /\ b = render g ++ rest /\ r = denote ipp g p.
+Proof.
+  intro H0. pose proof (parse_request_flat_ok _ _ _ _ _ H0) as [[M U1 U2 U3 U4 Q1 Q2 Q3 V0 V1 V2 V3] _ Hb _].
+  revert H0 M U1 U2 U3 U4 Q1 Q2 Q3 V0 V1 V2 V3 Hb.
+  unfold parse_request_flat. destruct b as [|first l0]; [discriminate|].
+  destruct (read_until_flat LF l0) as [line l1] eqn:Er. apply read_until_flat_lf_last in Er as [LL El0].
+  destruct (parse_start_line (first :: line)) as [[[[m uri] query] version]|] eqn:Es; [|discriminate].
+  destruct (header_loop_flat (S (length l1)) l1 []) as [[hs l2]|e|w] eqn:Eh; try discriminate.
+  destruct (body_of_flat E_Stream hs l2) as [[c l3]|e|w] eqn:Eb; try discriminate.
+  intro H. injection H as <- <-. cbn [r_method r_uri r_query r_version r_headers r_content].
+  intros M U1 U2 U3 U4 Q1 Q2 Q3 V0 V1 V2 V3 Hb.
+  apply start_line_conv in Es as (qo & Eline & Eq); [|exact LL].
+  apply header_loop_flat_conv in Eh as (ghs & Wgs & El1 & Ehs). cbn [rev app] in Ehs.
+  apply body_of_flat_conv in Eb.
+  exists {| g_method := m; g_path := uri; g_query := qo; g_version := version; g_headers := ghs; g_body := c |}.
+  split; [|split].
+  - split; [|split].
+    + constructor; cbn [g_method g_path g_query g_version]; try assumption; try (now apply utf8_true_valid).
+      subst query. destruct qo as [q|]; [|exact I]. repeat split; try assumption. now apply utf8_true_valid.
+    + apply Forall_forall. intros h Hin. apply hdr_acc_header. exact (proj1 (Forall_forall _ _) Wgs h Hin).
+    + unfold wf_body. cbn [g_headers g_body]. rewrite <- Ehs. unfold body_ok in Hb.
+      destruct (hget (HKnown H_ContentLength) hs) as [cl|], c as [bd|]; try contradiction; [|reflexivity].
+      rewrite Hb. apply N.eqb_refl.
+  - unfold render, render_start, render_target, render_body. cbn [g_method g_path g_query g_version g_headers g_body].
+    rewrite El0, El1, Eb.
+    rewrite app_comm_cons.
+    rewrite Eline. repeat (rewrite <- app_assoc; cbn [app]). reflexivity.
+  - unfold denote. cbn [g_method g_path g_query g_version g_headers g_body]. subst query hs. reflexivity.
+Qed.
+
+Lemma parse_accepts_iff ipp p b r rest :
+  parse_request_flat ipp p b = Ok (r, rest) <-> exists g, accepted g /\ b = render g ++ rest /\ r = denote ipp g p.
+Proof.
+  split; [apply parse_accepts_conv|]. intros (g & A & -> & ->). now apply parse_accepted.
 Qed.
